@@ -5,8 +5,9 @@ Model driver for C04. Line protocol (see /verif/notes/C04.md):
   race <serialize 0|1> <life 0|1> <pre a|g|c> <age o|f> <pop touch|put> <top del|ti> <sched>
 
 `hist`: logical time in the case line counts units (one unit passes after every op, `tick:d` adds d);
-the model clock runs in HALF units so that a planted trash deadline (placed half a unit early by the
-Go driver) never coincides with a deadline computed by Trash. Output
+the model clock runs in 1/256 units: a planted trash deadline (placed half a unit early by the Go driver)
+never coincides with a deadline computed by Trash, and the real time that passes between the per-volume
+calls of one untrash request is one tick per volume (`Cfg.spread := 1`; less than a unit per history). Output
   res=<per-op results> dirs=<listing of every volume before the first and after every op, '|'-separated>
 `race`: output  P=<status> T=<result> get=<status> dir=<listing> trace=<controller events>
 -/
@@ -17,7 +18,10 @@ open ArvVerif ArvVerif.C04
 
 namespace C04Drv
 
-def base : Nat := 100000
+def base : Nat := 10000000
+
+/-- ticks per logical unit -/
+def U : Nat := 256
 
 def parseHash (s : String) : Option Nat :=
   match s.toList with
@@ -49,16 +53,16 @@ def plant (vs : List Vol) (it : String) : Option (List Vol) :=
     match v.toNat?, parseHash h, a.toNat? with
     | some vi, some hi, some age =>
       if vi < vs.length ∧ (g = "g" ∨ g = "c") ∧ age ≥ 1 then
-        some (setVol vs vi (fun vol => vol.setBlock hi (some { good := g = "g", mtime := base - 2 * age })))
+        some (setVol vs vi (fun vol => vol.setBlock hi (some { good := g = "g", mtime := base - U * age })))
       else none
     | _, _, _ => none
   | [v, h, g, a, t] =>
     match v.toNat?, parseHash h, a.toNat?, (if t.startsWith "T" then parseInt (t.drop 1).toString else none) with
     | some vi, some hi, some age, some rem =>
       if vi < vs.length ∧ (g = "g" ∨ g = "c") ∧ age ≥ 1 then
-        let dl := ((base : Int) + 2 * rem - 1).toNat
+        let dl := ((base : Int) + (U : Int) * rem - (U / 2 : Nat)).toNat
         some (setVol vs vi (fun vol => { vol with
-          trash := trashInsert vol.trash { hash := hi, deadline := dl, file := { good := g = "g", mtime := base - 2 * age } } }))
+          trash := trashInsert vol.trash { hash := hi, deadline := dl, file := { good := g = "g", mtime := base - U * age } } }))
       else none
     | _, _, _, _ => none
   | _ => none
@@ -72,7 +76,7 @@ def storedMtime (s : St) (vi hi : Nat) : Nat :=
 does: from the file as it is just before the request) -/
 def parseOp (s : St) (op : String) : Option (Op × Bool) :=
   match op.splitOn ":" with
-  | ["tick", d] => d.toNat?.map (fun n => (Op.tick (2 * n), false))
+  | ["tick", d] => d.toNat?.map (fun n => (Op.tick (U * n), false))
   | ["empty"] => some (.emptyTrash, true)
   | [k, h] =>
     match parseHash h with
@@ -97,8 +101,8 @@ def parseOp (s : St) (op : String) : Option (Op × Bool) :=
       let req : Option Nat :=
         if m = "v0" ∨ m = "v1" then
           let st := storedMtime s (if m = "v0" then 0 else 1) hi
-          some (if plus ∧ st ≠ 0 then st + 1 else st)
-        else if m.startsWith "a" then (m.drop 1).toString.toNat?.map (fun k => s.now - 2 * k - 1)
+          some (if plus ∧ st ≠ 0 then st + U / 2 else st)
+        else if m.startsWith "a" then (m.drop 1).toString.toNat?.map (fun k => s.now - U * k - U / 2)
         else none
       let mnt : Option (Option Nat) :=
         if mount = "-" then some none else if mount = "0" then some (some 0)
@@ -119,10 +123,10 @@ def listing (s : St) : String :=
   let hs := List.range 8
   let vols := s.vols.map fun v =>
     let bl := hs.filterMap fun h => (v.blocks h).map fun f =>
-      s!"h{h}:{if f.good then "g" else "c"}:{(s.now - f.mtime) / 2}"
+      s!"h{h}:{if f.good then "g" else "c"}:{(s.now - f.mtime) / U}"
     let tr := v.trash.map fun e =>
-      let rem : Int := ((e.deadline : Int) - (s.now : Int) + 1).fdiv 2
-      s!"h{e.hash}.T{rem}:{if e.file.good then "g" else "c"}:{(s.now - e.file.mtime) / 2}"
+      let rem : Int := ((e.deadline : Int) - (s.now : Int) + (3 * U / 4 : Nat)).fdiv U
+      s!"h{e.hash}.T{rem}:{if e.file.good then "g" else "c"}:{(s.now - e.file.mtime) / U}"
     let all := sortStrings (bl ++ tr)
     if all.isEmpty then "-" else ",".intercalate all
   "/".intercalate vols
@@ -138,7 +142,7 @@ partial def runOps (c : Cfg) (s : St) (ops : List String) (acc snaps : List Stri
       let (s1, r) := step c s op
       -- `ti` goes through PUT /trash, which always answers 200
       let shown := match op with | .trashItem .. => "200" | _ => showRes r
-      let s2 := if auto then (step c s1 (.tick 2)).1 else s1
+      let s2 := if auto then (step c s1 (.tick U)).1 else s1
       runOps c s2 rest (shown :: acc) (listing s1 :: snaps)
 
 def hist (f : List String) : String :=
@@ -157,7 +161,7 @@ def hist (f : List String) : String :=
         match planted with
         | none => "bad-op"
         | some vs =>
-          let c : Cfg := { ttl := 2 * ttl, life := 2 * life, blobTrash := bt = "1", conc := conc, res := 1 }
+          let c : Cfg := { ttl := U * ttl, life := U * life, blobTrash := bt = "1", conc := conc, res := 1, spread := 1 }
           let s0 : St := { vols := vs, now := base, rr := 0 }
           match runOps c s0 (if ops = "-" then [] else ops.splitOn ";") [] [listing s0] with
           | none => "bad-op"
